@@ -246,9 +246,18 @@ fn run(input: RunInput) -> ScenFuture {
         cfg.connect_timeout_ms = Some(3000);
         // request deadlines far beyond anything that happens in a run: they must not change what
         // is delivered (headers included)
-        if w.flag("huge_default_timeouts", 0.3) {
+        let huge = w.flag("huge_default_timeouts", 0.3);
+        if huge {
             cfg.outbound_request_timeout_ms = Some(3_600_000);
             cfg.inbound_request_timeout_ms = Some(3_600_000);
+        }
+        // ... or a serving-side deadline in the range of the handler durations: a handler that is
+        // cut off produces nothing and the caller gets the timeout layer's RequestTimeout; a handler
+        // that did produce its response - however close to the deadline, however long it was
+        // CPU-bound across it - must see exactly that response delivered
+        let short_inbound = !huge && w.flag("short_inbound_timeout", 0.25);
+        if short_inbound {
+            cfg.inbound_request_timeout_ms = Some(w.param("inbound_timeout_ms", 20, 300) as u64);
         }
         // a frame limit on every node, smaller than some of the generated messages: such an RPC
         // fails (C15) - and must still be delivered to a handler at most once
@@ -374,6 +383,7 @@ fn run(input: RunInput) -> ScenFuture {
             let start_ms = if spread_ms == 0 { 0 } else { wl.gen_range(0..=spread_ms) };
             let api = wl.gen_range(0..3);
             let (w2, outcomes, nodes2) = (w.clone(), outcomes.clone(), nodes.clone());
+            let callee_log = handles[callee].clone();
             tasks.push(tokio::spawn(async move {
                 sleep_ms(start_ms).await;
                 let spec = gen_request(w2.seed, nonce, w2.tier, big_ok, routed);
@@ -401,6 +411,16 @@ fn run(input: RunInput) -> ScenFuture {
                             w2.violate("unrouted-request-answered-by-a-handler", "rpc", format!("nonce {nonce}: route {:?} matches no mounted route but the response has status {:?}", spec.route, resp.status()));
                         }
                         w2.probe("unrouted-request");
+                        Ok(())
+                    }
+                    Ok(resp) if short_inbound && resp.status() == StatusCode::RequestTimeout && resp.body().is_empty() && resp.headers().is_empty() => {
+                        // the serving side's timeout reply: legitimate only if the handler was cut
+                        // off, i.e. never got to produce its response
+                        let produced = callee_log.seen().iter().any(|s| s.nonce == Some(nonce) && s.completed_at_ns.is_some());
+                        if produced {
+                            w2.violate("handler-response-replaced-by-timeout-reply", "rpc", format!("nonce {nonce}: the handler ran to completion and produced its response, yet the caller received the timeout layer's RequestTimeout"));
+                        }
+                        w2.probe("cut-off-by-inbound-timeout");
                         Ok(())
                     }
                     Ok(resp) => {
